@@ -579,7 +579,8 @@ Lemma exactly_typed_comparable : forall c v,
 Proof.
   intros c v H. destruct (exactly_typed_shape _ _ H) as [fv Hc Hv _ _|a v' Hv _|v' Hv].
   - rewrite Hv. reflexivity.
-  - cbn [valuer]. apply scalar_comparable. exact Hv.
+  - rewrite (valuer_ptr_scalar _ _ (c_implicitnull c) a Hv).
+    destruct (c_implicitnull c && is_zero v'); [reflexivity|apply scalar_comparable; exact Hv].
   - destruct (valuer_scalar _ _ (c_implicitnull c) Hv) as [E _]. rewrite E.
     destruct (c_implicitnull c && is_zero v'); [reflexivity|apply scalar_comparable; exact Hv].
 Qed.
@@ -656,6 +657,9 @@ Proof.
   intros bt i d Hb Hc. destruct bt as [k n|n| | | |bt']; try discriminate; destruct d; cbn [class_ok] in Hc; try discriminate; reflexivity.
 Qed.
 
+Lemma valuer_ptr_field : forall bt d a, valuer false (GPtr a (field_value bt d)) = base_dval (field_value bt d).
+Proof. intros bt d a. destruct bt; destruct d; reflexivity. Qed.
+
 Lemma valuer_field : forall c d, column_ok c = true -> representable c d = true ->
   valuer (c_implicitnull c) (field_value (c_ty c) d) = canon (base_ty (c_ty c)) d.
 Proof.
@@ -681,7 +685,7 @@ Proof.
         assert (Hnb := implicitnull_not_bytes c Hc Ei). rewrite E in Hnb.
         rewrite (is_zero_field _ _ Hnb Hcls). exact Hnz. }
       rewrite Hz. apply base_field. exact Hcls.
-    + rewrite E. cbn [field_value]. destruct d; try contradiction; cbn [valuer]; apply base_field; exact Hcls.
+    + rewrite E, Hi. cbn [field_value]. destruct d; try contradiction; rewrite valuer_ptr_field; apply base_field; exact Hcls.
 Qed.
 
 (** The tester is sound for SQL: a representable stored value it accepts is one the caller's own atom selects. *)
@@ -810,9 +814,9 @@ Proof.
     { intros v' Hv Ha. change (atom_of d (base_dval v')) with (atom_value d (base_dval v')) in Ha.
       rewrite atom_nonnull in Ha by (eapply base_dval_nonnull; exact Hv).
       rewrite (scalar_W_T _ _ _ Hv Hcls Ha). apply dval_eqb_refl. }
-    destruct (exactly_typed_shape _ _ Ht) as [fv Hco Hv _ _|a v' Hv _|v' Hv].
+    destruct (exactly_typed_shape _ _ Ht) as [fv Hco Hv _ _|a v' Hv Hz|v' Hv].
     + rewrite Hv in Hw. cbn [atom_of] in Hw. destruct d; discriminate.
-    + cbn [valuer] in *. apply Hsc; assumption.
+    + rewrite (valuer_ptr_scalar _ _ (c_implicitnull c) a Hv), Hz in *. apply Hsc; assumption.
     + destruct (valuer_scalar _ _ (c_implicitnull c) Hv) as [E _]. rewrite E in *.
       destruct (c_implicitnull c && is_zero v').
       * cbn [atom_of] in Hw. destruct d; discriminate.
